@@ -34,6 +34,7 @@ func init() {
 			{Name: "chains", N: func(t string) int { return c10NumChains(t) }, Run: c10Chains},
 			{Name: "chainvals", N: func(string) int { return 13 + 169 + 2197 + 28561 }, Run: c10ChainValues},
 			{Name: "longchain", N: tierN(3000, 100000), Run: c10LongChain},
+			{Name: "lookalikes", N: func(string) int { return c10LookN() }, Run: c10Lookalikes},
 			{Name: "ws", N: tierN(80000, 3000000), Run: c10Whitespace},
 			{Name: "abbrev", N: tierN(80000, 3000000), Run: c10Abbrev},
 		},
@@ -443,4 +444,162 @@ func c10LongChain(c *Case) {
 	c.SampleEvery(301, func() interface{} {
 		return map[string]interface{}{"family": "longchain", "operators": nops, "shape": []string{"arithmetic", "comparisons joined by and/or", "mixed"}[shape], "bytes": len(src)}
 	})
+}
+
+// c10Lookalikes: groups of expression texts that LOOK alike - they differ only in white space, letter case, quote
+// characters or the spelling of a number - where some members of a group mean the same and others do not (`a-b` is
+// one name, `a - b` a subtraction; `adivb` a name, `a div b` a division). Every member is evaluated through every
+// public entry point (Compile, MustCompile, CompileWithNS, the package-level Select), in several orders and twice,
+// inside ONE process, and each result is compared with the reference for exactly that text: the meaning of a text
+// must not depend on which look-alike was compiled before it.
+var c10LookDoc = xdoc.MustParseXML(`<r><x id="1"><a>12</a><b>3</b><a-b>9</a-b><adivb>7</adivb><aandb>1</aandb><amodb>5</amodb><aorb>0</aorb><a--b>2</a--b><A>100</A></x>`+
+	`<x id="2"><a>5</a><b>-4</b><a-b>1</a-b><adivb>2</adivb><amodb>1</amodb><A>5</A><t>a  b</t></x><x id="3"><a>9</a><b>0</b><t>a b</t><a.b>4</a.b></x><X id="4"><a>9</a><b>9</b></X></r>`, false)
+
+// numeric members are only ever compared with a number, boolean / node-set members are only used as a predicate
+// (the operand combinations the statements cover)
+var c10LookNumeric = [][]string{
+	{"a-b", "a - b", "a -b", "a  -  b", "a\n-\tb"},
+	{"adivb", "a div b", "a  div  b", "a div\nb"},
+	{"amodb", "a mod b", "a\tmod\tb"},
+	{"a--b", "a - -b", "a- -b", "a --b"},
+	{"a.b", "a . b"},
+	{"a*b", "a * b", "a *b", "a* b"},
+	{"A", "a", "A ", " a"},
+	{"a+b", "a + b", "a +b"},
+	{"-a", "- a", "--a", "- - a"},
+}
+var c10LookBoolean = [][]string{
+	{"aandb", "a and b", "a  and  b"},
+	{"aorb", "a or b", "a   or b"},
+	{"t='a  b'", "t = 'a  b'", "t='a b'", "t = 'a b'", "t=\"a b\"", "t = \"a  b\""},
+	{"a=9", "a = 9", "a=9.0", "a = 09", "a=' 9'", "a = '9'"},
+	{"a|b", "a | b", "a|A", "a | A", "A|a"},
+	{"a>1", "a > 1", "a>-1", "a > -1", "a>- 1", "a >= 1", "a>=1", "a> =1"},
+	{"A", "a", "X", "x"},
+}
+var c10LookNumWraps = [][2]string{{"//x[", " = 9]/a"}, {"//x[", " > 2]"}, {"//*[", " != 9]/@id"}, {"/r/x[", " <= 12]/b"}, {"//x[9 = ", "]"}, {"//x[not(", " = 9)]"}}
+var c10LookBoolWraps = [][2]string{{"//x[", "]/a"}, {"//x[", "]"}, {"//*[", "]/@id"}, {"/r/x[", "]/b"}, {"//x[not(", ")]"}, {"//x/a[../", "]"}}
+
+func c10LookN() int { return (len(c10LookNumeric) + len(c10LookBoolean)) * 6 * 4 }
+
+func c10Lookalikes(c *Case) {
+	ng := len(c10LookNumeric) + len(c10LookBoolean)
+	gi := c.Index % ng
+	var grp []string
+	var wrap [2]string
+	if gi < len(c10LookNumeric) {
+		grp, wrap = c10LookNumeric[gi], c10LookNumWraps[(c.Index/ng)%6]
+	} else {
+		grp, wrap = c10LookBoolean[gi-len(c10LookNumeric)], c10LookBoolWraps[(c.Index/ng)%6]
+	}
+	g := c.G()
+	var texts []string
+	for _, m := range grp {
+		texts = append(texts, wrap[0]+m+wrap[1])
+	}
+	d := c10LookDoc
+	type entry struct {
+		name string
+		sel  func(src string, rec *xdoc.Rec) (*xpath.NodeIterator, error)
+	}
+	entries := []entry{
+		{"Compile", func(src string, rec *xdoc.Rec) (*xpath.NodeIterator, error) {
+			e, err := xpath.Compile(src)
+			if err != nil {
+				return nil, err
+			}
+			return e.Select(xdoc.NewNav(d.Root, rec)), nil
+		}},
+		{"package Select", func(src string, rec *xdoc.Rec) (it *xpath.NodeIterator, err error) {
+			defer func() {
+				if x := recover(); x != nil {
+					if e, isErr := x.(error); isErr {
+						it, err = nil, e // documented: the package-level Select panics with the compile error
+						return
+					}
+					panic(x)
+				}
+			}()
+			return xpath.Select(xdoc.NewNav(d.Root, rec), src), nil
+		}},
+		{"MustCompile", func(src string, rec *xdoc.Rec) (*xpath.NodeIterator, error) {
+			if _, err := xpath.Compile(src); err != nil {
+				return nil, err
+			}
+			return xpath.MustCompile(src).Select(xdoc.NewNav(d.Root, rec)), nil
+		}},
+		{"CompileWithNS", func(src string, rec *xdoc.Rec) (*xpath.NodeIterator, error) {
+			e, err := xpath.CompileWithNS(src, map[string]string{"p": "urn:p"})
+			if err != nil {
+				return nil, err
+			}
+			return e.Select(xdoc.NewNav(d.Root, rec)), nil
+		}},
+	}
+	for pass := 0; pass < 2; pass++ {
+		order := g.R.Perm(len(texts))
+		for _, ti := range order {
+			src := texts[ti]
+			ast, perr := xref.Parse(src)
+			var want xref.NodeSet
+			if perr == nil {
+				var ok bool
+				var why string
+				want, ok, why = refNodeSet(ast, xref.NewCtx(d.Root))
+				if !ok {
+					if pass == 0 {
+						c.Skip("out-of-fragment: " + why)
+					}
+					continue
+				}
+			}
+			for _, en := range entries {
+				var res SelResult
+				var cerr error
+				rec := &xdoc.Rec{Limit: OpLimit}
+				func() {
+					defer func() {
+						if x := recover(); x != nil {
+							res.Panic, res.Budget = classify(x)
+						}
+						c.account(rec.Ops)
+					}()
+					var it *xpath.NodeIterator
+					if it, cerr = en.sel(src, rec); cerr == nil {
+						drain(it, d, &res)
+					}
+				}()
+				c.Count("lookalike:" + en.name)
+				det := func() map[string]interface{} {
+					dd := docDetail(d, d.Root)
+					dd["expr"], dd["entry_point"], dd["group"], dd["pass"] = src, en.name, texts, pass
+					return dd
+				}
+				if perr != nil {
+					if cerr == nil && !res.Aborted() {
+						// (the reference rejects the text: nothing is asserted about it here - C17's business)
+						c.Count("lookalike:reference-rejects")
+					}
+					continue
+				}
+				if cerr != nil {
+					dd := det()
+					dd["compile_error"] = cerr.Error()
+					c.Violation("COMPILE-REJECTED", dd)
+					return
+				}
+				gs, _ := AsSet(res.Nodes)
+				if res.Aborted() || res.Foreign > 0 || !SameNodes(gs, want) {
+					dd := det()
+					dd["expected"], dd["observed_sequence"], dd["abort"] = xdoc.Labels(want), xdoc.Labels(res.Nodes), fmt.Sprint(res.Panic.String(), res.Budget)
+					c.Violation("MEANING-DEPENDS-ON-AN-EARLIER-LOOKALIKE", dd)
+					return
+				}
+			}
+			if len(want) > 0 {
+				c.Nontrivial("look|" + src)
+			}
+		}
+	}
+	c.SampleEvery(7, func() interface{} { return map[string]interface{}{"family": "lookalikes", "group": texts} })
 }
